@@ -507,6 +507,59 @@ func (fx *fexec) scanCallModifies(x *ssa.Call, ms *modSet, depth int) {
 	vc := fx.vc
 	cc := &x.Call
 	if cc.IsInvoke() {
+		// an interface method replaced by its (assumed) contract: what that contract assigns
+		// changes in the loop too
+		it := types.Unalias(vc.resolve(cc.Value.Type()))
+		name := ""
+		if n, ok := it.(*types.Named); ok && n.Obj().Pkg() != nil {
+			name = n.Obj().Pkg().Path() + "." + n.Obj().Name() + "." + cc.Method.Name()
+		} else if it.String() == "error" {
+			name = "error." + cc.Method.Name()
+		}
+		c := vc.eng.contracts.Funcs[name]
+		if c == nil || c.Pure {
+			return
+		}
+		sig, _ := cc.Method.Type().(*types.Signature)
+		for _, a := range c.Assigns {
+			if a.X.K == "ghost" {
+				l := (&SpecCtx{vc: vc, st: &State{heap: map[string]Term{}}}).ghostLoc(vc.eng.contracts.Ghosts[a.X.Op])
+				ms.comps[l.Comp] = l.Sort
+				ms.targets[l.Comp] = append(ms.targets[l.Comp], intLit(1))
+				continue
+			}
+			// anything else an interface contract assigns: resolve the component by types,
+			// with the method's parameters (a0, a1, ... and self) as dummies; coarse
+			vars := map[string]Val{}
+			rt := vc.resolve(cc.Value.Type())
+			vars["self"] = Val{Ty: rt, T: Term{"dummy", vc.sortOf(rt)}}
+			if sig != nil {
+				for i := 0; i < sig.Params().Len(); i++ {
+					pt := vc.resolve(sig.Params().At(i).Type())
+					vars[fmt.Sprintf("a%d", i)] = Val{Ty: pt, T: Term{"dummy", vc.sortOf(pt)}}
+				}
+			}
+			sc := &SpecCtx{vc: vc, vars: vars, st: &State{heap: map[string]Term{}}, hp: &heapParams{comps: map[string]string{}}}
+			var comp, srt string
+			switch a.X.K {
+			case "allfield":
+				sty, fi := sc.structField(a.X)
+				comp, srt = vc.fieldComp(sty, fi)
+			case "idx":
+				s := sc.eval(a.X.Args[0])
+				comp, srt = vc.elemComp(vc.under(s.Ty).(*types.Slice).Elem())
+			case "sel":
+				base := sc.eval(a.X.Args[0])
+				pt := vc.resolve(base.Ty).Underlying().(*types.Pointer)
+				_, path := lookupFieldAnyPkg(pt.Elem(), a.X.Op)
+				comp, srt = vc.fieldComp(pt.Elem(), path[0])
+			default:
+				panic(engErr("loop frame: unsupported assigns location in the contract of " + name + ": " + a.X.String()))
+			}
+			ms.comps[comp] = srt
+			ms.coarse[comp] = true
+		}
+		ms.allocs = true
 		return
 	}
 	switch callee := cc.Value.(type) {
